@@ -913,8 +913,10 @@ def run(rep: Report, ctx: Any) -> str:
                       "the kind's macros or type strings is imported by the host header or by the kind's get_imports")
     rep.rule("R01.1b", "the literal-enum helper check_<name> is named by the same expression of the enum where it is defined, imported and "
                        "called, and imported from the module the enum is written to")
-    rep.rule("R01.2", "lazy-import placement: every function of the model class into which macros of property templates are expanded emits "
-                      "model.lazy_imports before the first of them; at module level the same imports stand under `if TYPE_CHECKING:`")
+    rep.rule("R01.2", "lazy-import placement: in every function of the model class into which macros of property templates are expanded, "
+                      "model.lazy_imports is emitted before the first of them on every path through the template (macros, partials and "
+                      "captured blocks read where they are emitted); at module level the same imports stand in the block of an "
+                      "`if TYPE_CHECKING:` line")
     rep.rule("R01.3", "evaluated annotations that can denote a lazily imported class are quoted")
     rep.rule("R01.4", "declaration order: the declaration passes of the class body partition the attributes over (default is none, required), "
                       "no pass mixes attributes with and without default, passes without default come first; positional parameters do not "
@@ -941,8 +943,10 @@ def run(rep: Report, ctx: Any) -> str:
     rep.require(mt and et, "host templates")
 
     def header_names(ti: Any) -> set[str]:
+        """names imported unconditionally by the text the template writes outside every loop (in place, in a partial it includes, in a
+        macro it expands)"""
         out: set[str] = set()
-        for f in tplq.frags(ti.tree.body):
+        for f in _TplRun(jx, ti).frags(ti.tree.body, ti):
             if f.kind == "data" and not f.loops:
                 for line in f.text.splitlines():
                     if re.match(r"\s*(from\s+\S+\s+import|import)\s", line) and not f.guards:
@@ -1042,70 +1046,7 @@ def run(rep: Report, ctx: Any) -> str:
     _check_helper_name(rep, ctx)
 
     # ---- R01.2 ---------------------------------------------------------------------------------------------------------------
-    # The text of the model module in source order, the template's own macros expanded where they are called.  Three kinds of places
-    # matter: where a function of the generated class begins (`def name(`), where the lazily imported classes are imported (the loop
-    # over model.lazy_imports emits its element), and where a macro of a property template is expanded (the only text that can name a
-    # model class at run time).  Neither line distances nor the macro a loop stands in are looked at.
-    top = list(tplq.frags(mt.tree.body))
-    aliases = {n.target for n in mt.tree.find_all(nodes.Import)}
-
-    def expanded(frs: list[Any], depth: int = 0) -> list[Any]:
-        out_: list[Any] = []
-        for fr in frs:
-            own = [c_.node.name for c_ in ([fr.node] + list(fr.node.find_all(nodes.Call))) if isinstance(c_, nodes.Call)
-                   and isinstance(c_.node, nodes.Name) and c_.node.name in mt.macros] if fr.kind == "expr" else []
-            if own and depth < 3:
-                for mn in own:
-                    out_ += expanded(list(tplq.frags(mt.macros[mn].body)), depth + 1)
-            else:
-                out_.append(fr)
-        return out_
-
-    def is_lazy(fr: Any) -> bool:
-        return fr.kind == "expr" and bool(fr.loops) and _unparen(fr.loops[-1]).startswith("model.lazy_imports") and \
-            fr.text.startswith(fr.loops[-1] + "[*]")
-
-    def is_user(fr: Any) -> bool:
-        return fr.kind == "expr" and any(isinstance(c_, nodes.Call) and isinstance(c_.node, nodes.Getattr) and isinstance(c_.node.node, nodes.Name)
-                                         and c_.node.node.name in aliases for c_ in [fr.node] + list(fr.node.find_all(nodes.Call)))
-
-    stream = expanded(top)
-    events: list[tuple[str, str, int]] = []  # (def | class | lazy | user | text | other, name, line)
-    for fr in stream:
-        if fr.kind == "data":
-            marks = [(m_.start(), "def", m_.group(1)) for m_ in re.finditer(r"(?<!\w)def (\w+)\(", fr.text)] + \
-                    [(m_.start(), "class", "") for m_ in re.finditer(r"(?m)^class\s", fr.text)]
-            for off, kind, nm in sorted(marks):
-                events.append((kind, nm, fr.line + fr.text[:off].count("\n")))
-            if not marks and fr.text.strip():
-                events.append(("text", fr.text.strip(), fr.line))
-        else:
-            events.append(("lazy" if is_lazy(fr) else "user" if is_user(fr) else "other", "", fr.line))
-    starts = [i for i, ev in enumerate(events) if ev[0] in ("def", "class")]
-    n_fn = 0
-    for k, i in enumerate(starts):
-        if events[i][0] != "def":
-            continue
-        seg = events[i + 1:(starts[k + 1] if k + 1 < len(starts) else len(events))]
-        users = [j for j, ev in enumerate(seg) if ev[0] == "user"]
-        lazies = [j for j, ev in enumerate(seg) if ev[0] == "lazy"]
-        if not users:
-            continue
-        n_fn += 1
-        name = events[i][1]
-        rep.check(bool(lazies) and lazies[0] < users[0], "R01.2", f"model.py.jinja::{name}::lazy-imports-first",
-                  f"{name} does not start by importing the lazily referenced model classes although the macros it inlines can emit "
-                  "isinstance(x, Model) / Model.from_dict(...) (NameError at call time)", where=f"{PKG}/templates/model.py.jinja:{events[i][2]}",
-                  lhs=[ev[0] for ev in seg if ev[0] in ("lazy", "user")][:4], rhs=f"model.lazy_imports emitted in {name} before the first property macro")
-    rep.floor("model_functions", n_fn, 2)
-    # at module level the same imports stand under `if TYPE_CHECKING:` (imported unconditionally, two models that refer to each other
-    # cannot be imported): the text that precedes the first module-level lazy import ends with that line
-    head = events[:starts[0]] if starts else events
-    first = next((j for j, ev in enumerate(head) if ev[0] == "lazy"), None)
-    before = head[first - 1] if first else None
-    rep.check(before is not None and before[0] == "text" and before[1].endswith("if TYPE_CHECKING:"), "R01.2",
-              "model.py.jinja::type-checking-block", "lazy imports are not also emitted under TYPE_CHECKING", where=f"{PKG}/templates/model.py.jinja",
-              lhs=before[:2] if before else None, rhs="`if TYPE_CHECKING:` directly before the module-level lazy imports")
+    _lazy_imports_placed(rep, ctx, mt)
 
     # ---- R01.3 -----------------------------------------------------------------------------------------------------------------
     ts = ix.find_method(proto, "to_string")
@@ -1123,10 +1064,14 @@ def run(rep: Report, ctx: Any) -> str:
               "class-level annotation raises NameError at import", where(ts, ts.node))
     # the annotation of additional properties, however the template names it or its parts: every place that asks the additional
     # property for its type string passes `quoted` = not a base type (or plainly true)
-    mdefs = _set_defs(mt.tree)
-    apt = [c_ for c_ in mt.tree.find_all(nodes.Call) if expr_text(_tsubst(c_.node, mdefs)) == "model.additional_properties.get_type_string"]
+    # (in whichever template - model.py.jinja, a partial it includes, a helper whose macro it expands - the question is asked)
+    apt: list[tuple[nodes.Call, dict]] = []
+    for _tn, ti_ in sorted(jx.templates.items()):
+        mdefs = _set_defs(ti_.tree)
+        apt += [(c_, mdefs) for c_ in ti_.tree.find_all(nodes.Call) if expr_text(_tsubst(c_.node, mdefs)) == "model.additional_properties.get_type_string"]
+    rep.require(apt, "a template expression that asks model.additional_properties for its type string")
     q_ok = {"(not model.additional_properties.is_base_type)", "True"}
-    rep.check(bool(apt) and all(any(k.key == "quoted" and expr_text(_tsubst(k.value, mdefs)) in q_ok for k in a_.kwargs) for a_ in apt), "R01.3",
+    rep.check(all(any(k.key == "quoted" and expr_text(_tsubst(k.value, mdefs)) in q_ok for k in a_.kwargs) for a_, mdefs in apt), "R01.3",
               "model.py.jinja::additional_property_type::quoted", "the additional-properties annotation is not quoted for non-base types",
               where=f"{PKG}/templates/model.py.jinja")
     # quoted=True puts the class name between quotes: on the paths of ModelProperty.get_type_string taken with quoted=True a text that begins
@@ -1150,9 +1095,8 @@ def run(rep: Report, ctx: Any) -> str:
     # exactly one pass, no pass can hold both an attribute without and one with a default (within a pass the order is the list's), and
     # no pass that can hold one with a default precedes a pass that can hold one without.  Conditions are compared as truth tables over
     # their atoms (and / or / not / conditional expressions / == and != between boolean-valued operands), the element spelled `•`.
-    decl = _declaration_passes(mt)
-    rep.check(bool(decl), "R01.4", "model.py.jinja::two-declaration-loops", "no declaration pass found in the class body", where=f"{PKG}/templates/model.py.jinja",
-              lhs=len(decl), rhs="at least one")
+    decl = _declaration_passes(mt, jx)
+    rep.require(bool(decl), "the loops of model.py.jinja (its macros, partials) that declare the attributes: `<element>.to_string()` written in a loop")
     if decl:
         def rel(p_: dict, atom: str) -> str:
             return atom.replace(p_["elem"], "•") if p_["elem"] else atom
@@ -1190,23 +1134,35 @@ def run(rep: Report, ctx: Any) -> str:
         pure = all(len(m_) == 1 for m_ in may)
         kinds = [next(iter(m_)) for m_ in may if len(m_) == 1]
         ordered = pure and kinds == sorted(kinds, reverse=True)  # every pass without defaults before every pass with defaults
-        same_dom = {p_["domain"] for p_ in decl} == {"model.required_properties + model.optional_properties"} and not any(p_["nested"] for p_ in decl)
+        # one list, run through by every pass (whatever the list is called: what is asked is that each of its elements is declared once)
+        same_dom = len({p_["domain"] for p_ in decl}) == 1 and not any(p_["nested"] for p_ in decl)
         rep.check(partition and ordered and same_dom, "R01.4", "model.py.jinja::declaration-order",
                   "attributes without a default are not all declared before attributes with one (attrs raises 'No mandatory attributes allowed "
                   "after an attribute with a default value' at import)", where=f"{PKG}/templates/model.py.jinja:{decl[0]['line']}",
                   lhs=[[[("" if pol else "not ") + rel(p_, expr_text(t_)) for t_, pol in site] for site in p_["sites"]] for p_ in decl],
                   rhs="passes partition the attributes; (default is none and required) first, the rest after")
-    em = jx.templates.get("endpoint_macros.py.jinja")
-    rep.require(em is not None and "arguments" in em.macros, "endpoint_macros.py.jinja::arguments")
-    arg = em.macros.get("arguments")
-    afr = list(tplq.frags(arg.body))
-    pos = [i for i, f in enumerate(afr) if f.kind == "expr" and len(f.loops) == 1 and _unparen(f.loops[0]) == "endpoint.path_parameters"
-           and f.text == f"{f.loops[0]}[*].to_string()"]
-    star = next((i for i, f in enumerate(afr) if f.kind == "data" and f.text.strip().startswith("*,")), None)
-    if pos and star is not None and pos[0] < star:
+    # a parameter list: text in which the separator `*,` is written.  Wherever it is put together (a macro, the macros it expands, a
+    # partial), the parameters written before the separator are positional; the loop over the path parameters that writes
+    # `<element>.to_string()` there writes their defaults, in path order
+    lists: list[tuple[Any, list[Any], int]] = []
+    for tn_, ti_ in sorted(jx.templates.items()):
+        run_ = _TplRun(jx, ti_)
+        for mname_, body_ in [("<top>", ti_.tree.body)] + [(m_.name, m_.body) for m_ in ti_.macros.values()]:
+            afr = list(run_.frags(body_, ti_))
+            star = next((i for i, f in enumerate(afr) if f.kind == "data" and re.search(r"(?m)^[ \t]*\*,", f.text)), None)
+            if star is not None:
+                lists.append((ti_, afr, star))
+    rep.require(lists, "a template text that writes the `*,` separator of a parameter list")
+    hit = None
+    for ti_, afr, star in lists:
+        pos = [i for i, f in enumerate(afr[:star]) if f.kind == "expr" and f.loops and _domain_text(f.loops[-1]) == "endpoint.path_parameters"
+               and f.targets[-1] and f.text == f"{f.targets[-1]}.to_string()"]
+        if pos and hit is None:
+            hit = (ti_, afr[pos[0]])
+    if hit is not None:
         rep.fail("R01.4", "endpoint_macros.py.jinja::arguments::positional-defaults",
                  "path parameters are positional and emitted through to_string(), which carries the schema default: a defaulted path parameter "
-                 "before one without default is a SyntaxError in every function of the endpoint module", where=f"{PKG}/templates/{em.name}:{afr[pos[0]].line}",
+                 "before one without default is a SyntaxError in every function of the endpoint module", where=f"{PKG}/templates/{hit[0].name}:{hit[1].line}",
                  lhs="to_string() before `*,`", rhs="no defaults, or defaulted ones last")
     # ---- R01.5 ---------------------------------------------------------------------------------------------------------------------
     rep.check(not ji.neutrality, "R01.5", "templates::lexically-neutral-blocks", f"some template block changes the lexical state: {list(ji.neutrality.values())[:2]}",
@@ -1274,6 +1230,475 @@ def run(rep: Report, ctx: Any) -> str:
 
     keyword_glue(rep, ctx, "R01.11")
     return LEVEL
+
+
+# ---- R01.2 ----------------------------------------------------------------------------------------------------------------------------
+# The model module is the text that model.py.jinja emits.  Where in the template a piece of that text is written down is a matter of
+# style: in place, in a macro of the template or of a helper template (`from ... import m`, `import ... as h`), in a partial that is
+# `include`d, in a `{% set x %}...{% endset %}` block that is emitted later, in a macro that receives the function's name as an
+# argument.  The rule therefore *runs* the template abstractly - statement by statement in execution order, calls / includes / blocks
+# expanded where they are emitted with the arguments for the parameters, both arms of every `if` whose test is not decided, every
+# loop no, one and more times - and keeps, for every path, a small state of the generated text:
+#     fn    the function of the generated class the text is in (after the last `def name(`; None before the first / after `class`)
+#     imp   the lazily imported classes have been imported in fn  (the loop over model.lazy_imports that emits its element was passed)
+#     tc    the last non-blank text at module level is the line `if TYPE_CHECKING:` (followed by nothing but lazy imports)
+#     col   position in the line: at its beginning / after indentation only / after text
+# Conditions that do not change during a rendering (they mention only render arguments: `model.is_multipart_body`, ...) and that
+# decide whether a `def`, a lazy-import loop or the `if TYPE_CHECKING:` line is emitted are enumerated (truth assignments), so that
+# `{% if c %}def f{% endif %} ... {% if c %}imports{% endif %}` is the same as one block.  A rendering in which model.lazy_imports is
+# empty needs no import: assignments that make a test of that collection false are skipped.
+_ORDER_ONLY = ("sort", "list", "unique", "reverse")
+_LAZY = "model.lazy_imports"
+_AWAIT = "\0name"
+_MARK = re.compile(r"(?<!\w)def[ \t]+(\w*)|^class\s", re.M)
+
+
+def _domain(n: nodes.Node) -> str:
+    """text of an iterable, order-only filters removed"""
+    while isinstance(n, nodes.Filter) and n.name in _ORDER_ONLY and n.node is not None and not n.args:
+        n = n.node
+    return _domain_text(expr_text(n))  # a `set` variable reads as the text of its definition
+
+
+def _domain_text(t: str) -> str:
+    """the same for the text of an iterable"""
+    t = _unparen(t)
+    again = True
+    while again:
+        again = False
+        for f in _ORDER_ONLY:
+            if t.endswith("|" + f):
+                t, again = _unparen(t[:-len(f) - 1]), True
+    return t
+
+
+def _empties(atom: str, dom: str) -> bool:
+    """the atom is a test of whether the collection has elements"""
+    t = _unparen(atom)
+    return t in (dom, dom + "|length", dom + "|count", dom + "|length > 0", dom + "|length != 0", dom + "|count > 0")
+
+
+class _TplRun:
+    def __init__(self, jx: Any, root: Any) -> None:
+        self.jx, self.root = jx, root
+        self.sdefs: dict[str, dict] = {}
+        self.blocks: dict[str, dict[str, nodes.AssignBlock]] = {}
+        self.user_alias: dict[str, set[str]] = {}
+        self.const_alias: dict[str, dict[str, str]] = {}
+        self.from_macros: dict[str, dict[str, tuple[str, str]]] = {}
+        # names that are not render arguments: aliases, `loop` (parameters of macros are replaced by the arguments where a macro is expanded)
+        self.bound = {"loop", "caller", "varargs", "kwargs", "self"}
+        for ti in jx.templates.values():
+            for n in ti.tree.find_all(nodes.Import):
+                self.bound.add(n.target)
+        self._lazy_target: "str | None" = None
+        self.chain: list[Any] = []  # the templates whose `include` is being expanded
+        self.reset({})
+        self.relevant: set[str] = set()
+        self.opaque: list[str] = []
+
+    def reset(self, assignment: dict[str, bool]) -> None:
+        self.assignment = assignment
+        self.marks = 0
+        self.uses: dict[str, list[bool]] = {}       # function -> imp at each expansion of a property macro
+        self.fn_line: dict[str, int] = {}
+        self.module_level: list[tuple[bool, str, int]] = []  # (tc, col, line) at each module-level emission of a lazy import
+
+    # -- per template facts ------------------------------------------------------------------------------------------------------------
+    def facts(self, ti: Any) -> None:
+        if ti.name in self.sdefs:
+            return
+        self.sdefs[ti.name] = {k: v for k, v in _set_defs(ti.tree).items()}
+        self.blocks[ti.name] = {a.target.name: a for a in ti.tree.find_all(nodes.AssignBlock) if isinstance(a.target, nodes.Name)}
+        ua, ca, fm = set(), {}, {}
+        for n in ti.tree.find_all(nodes.Import):
+            if isinstance(n.template, nodes.Const) and isinstance(n.template.value, str) and not n.template.value.startswith("property_templates/") \
+                    and n.template.value in self.jx.templates:
+                ca[n.target] = n.template.value
+            else:
+                ua.add(n.target)  # the template of a property kind, chosen per property
+        for n in ti.tree.find_all(nodes.FromImport):
+            if isinstance(n.template, nodes.Const) and n.template.value in self.jx.templates:
+                for item in n.names:
+                    src, dst = (item, item) if isinstance(item, str) else item
+                    if src in self.jx.templates[n.template.value].macros:
+                        fm[dst] = (n.template.value, src)
+        self.user_alias[ti.name], self.const_alias[ti.name], self.from_macros[ti.name] = ua, ca, fm
+        for k in [*ua, *ca, *fm]:  # a name that is (also) bound by an import is not read as a `set` definition
+            self.sdefs[ti.name].pop(k, None)
+
+    def subst(self, n: nodes.Node, ti: Any, binds: dict[str, nodes.Node]) -> nodes.Node:
+        defs = dict(self.sdefs[ti.name])
+        defs.update({k: [v] for k, v in binds.items()})
+        return _tsubst(n, defs) if defs else n
+
+    def macro_of(self, call: nodes.Call, ti: Any) -> "tuple[Any, nodes.Macro] | None":
+        """the macro a call expands: one of the template the call stands in or, in a partial, of a template that includes it (a partial
+        sees the names of the context it is included in)"""
+        for t_ in [ti] + [x for x in reversed(self.chain) if x is not ti]:
+            self.facts(t_)
+            hit = self._macro_in(call, t_)
+            if hit is not None:
+                return hit
+        return None
+
+    def _macro_in(self, call: nodes.Call, ti: Any) -> "tuple[Any, nodes.Macro] | None":
+        f = call.node
+        if isinstance(f, nodes.Name):
+            if f.name in ti.macros:
+                return ti, ti.macros[f.name]
+            if f.name in self.from_macros[ti.name]:
+                tn, mn = self.from_macros[ti.name][f.name]
+                return self.jx.templates[tn], self.jx.templates[tn].macros[mn]
+        if isinstance(f, nodes.Getattr) and isinstance(f.node, nodes.Name) and f.node.name in self.const_alias[ti.name]:
+            t2 = self.jx.templates[self.const_alias[ti.name][f.node.name]]
+            if f.attr in t2.macros:
+                return t2, t2.macros[f.attr]
+        return None
+
+    # -- the text as fragments ---------------------------------------------------------------------------------------------------------
+    def frags(self, body: list[nodes.Node], ti: Any, binds: "dict[str, nodes.Node] | None" = None, guards: tuple = (), gnodes: tuple = (),
+              loops: tuple = (), depth: int = 0, targets: tuple = ()) -> Any:
+        """tplq.frags of the text a body emits, with what is written elsewhere put where it is emitted: calls of macros of the template
+        or of a helper template (parameters replaced by the arguments), `include`d partials, captured `set` blocks"""
+        self.facts(ti)
+        binds = binds or {}
+        defs = {k: [v] for k, v in binds.items()}
+
+        def sub(x: nodes.Node) -> nodes.Node:
+            return _tsubst(x, defs) if defs else x
+
+        def frag(*a: Any) -> Any:
+            fr = tplq.Frag(*a)
+            fr.targets = targets  # the elements of the enclosing loops, as the text spells them (parallel to .loops)
+            return fr
+
+        for n in body:
+            if isinstance(n, nodes.Output):
+                for c in n.nodes:
+                    if isinstance(c, nodes.TemplateData):
+                        yield frag("data", c.data, c.lineno, guards, gnodes, loops, c)
+                        continue
+                    c2 = sub(c)
+                    base = c2
+                    while isinstance(base, nodes.Filter) and base.node is not None:
+                        base = base.node
+                    if isinstance(base, nodes.Name) and base.name in self.blocks[ti.name] and depth < 4:
+                        yield from self.frags(self.blocks[ti.name][base.name].body, ti, binds, guards, gnodes, loops, depth + 1, targets)
+                        continue
+                    whole = False
+                    for call in _calls_inner_first(c2):
+                        hit = self.macro_of(call, ti)
+                        if hit is not None and depth < 4:
+                            t2, m = hit
+                            params = [a.name for a in m.args]
+                            b2: dict[str, nodes.Node] = dict(zip(params[len(params) - len(m.defaults):], m.defaults))
+                            b2.update(zip(params, call.args))
+                            b2.update({k.key: k.value for k in call.kwargs})
+                            yield from self.frags(m.body, t2, b2, guards, gnodes, loops, depth + 1, targets)
+                            whole = whole or call is base
+                    if not whole:
+                        yield frag("expr", expr_text(c2), c.lineno, guards, gnodes, loops, c2)
+            elif isinstance(n, nodes.If):
+                t = sub(n.test)
+                yield from self.frags(n.body, ti, binds, guards + ((expr_text(t), True),), gnodes + (t,), loops, depth, targets)
+                neg, gn = guards + ((expr_text(t), False),), gnodes + (t,)
+                for el in n.elif_:
+                    t2_ = sub(el.test)
+                    yield from self.frags(el.body, ti, binds, neg + ((expr_text(t2_), True),), gn + (t2_,), loops, depth, targets)
+                    neg, gn = neg + ((expr_text(t2_), False),), gn + (t2_,)
+                if n.else_:
+                    yield from self.frags(n.else_, ti, binds, neg, gn, loops, depth, targets)
+            elif isinstance(n, nodes.For):
+                it = expr_text(sub(n.iter))
+                tg = n.target.name if isinstance(n.target, nodes.Name) else ""
+                if n.test is not None:
+                    tt = sub(n.test)
+                    yield from self.frags(n.body, ti, binds, guards + ((expr_text(tt), True),), gnodes + (tt,), loops + (it,), depth, targets + (tg,))
+                else:
+                    yield from self.frags(n.body, ti, binds, guards, gnodes, loops + (it,), depth, targets + (tg,))
+                if n.else_:
+                    yield from self.frags(n.else_, ti, binds, guards, gnodes, loops, depth, targets)
+            elif isinstance(n, nodes.Include):
+                for x in ([n.template] if isinstance(n.template, nodes.Const) else list(getattr(n.template, "items", []) or [])):
+                    t2 = self.jx.templates.get(x.value) if isinstance(x, nodes.Const) and isinstance(x.value, str) else None
+                    if t2 is not None and depth < 4:
+                        self.chain.append(ti)
+                        try:
+                            yield from self.frags(t2.tree.body, t2, binds, guards, gnodes, loops, depth + 1, targets)
+                        finally:
+                            self.chain.pop()
+                        break
+            elif isinstance(n, (nodes.With, nodes.Scope, nodes.CallBlock, nodes.FilterBlock, nodes.AssignBlock)):
+                yield from self.frags(getattr(n, "body", []), ti, binds, guards, gnodes, loops, depth, targets)
+
+    # -- conditions --------------------------------------------------------------------------------------------------------------------
+    def stable(self, n: nodes.Node) -> bool:
+        """the expression mentions only render arguments: it has one value during a rendering"""
+        names = [x.name for x in ([n] if isinstance(n, nodes.Name) else []) + list(n.find_all(nodes.Name))]
+        return bool(names) and all(x.isidentifier() and x not in self.bound for x in names) and "[*]" not in expr_text(n)
+
+    def atoms(self, t: nodes.Node) -> list[nodes.Node]:
+        if isinstance(t, (nodes.And, nodes.Or)):
+            return self.atoms(t.left) + self.atoms(t.right)
+        if isinstance(t, nodes.Not):
+            return self.atoms(t.node)
+        return [] if isinstance(t, nodes.Const) else [t]
+
+    def truth(self, t: nodes.Node, env: dict[str, bool]) -> "bool | None":
+        if isinstance(t, nodes.Const):
+            return bool(t.value)
+        if isinstance(t, nodes.Not):
+            v = self.truth(t.node, env)
+            return None if v is None else not v
+        if isinstance(t, (nodes.And, nodes.Or)):
+            l, r = self.truth(t.left, env), self.truth(t.right, env)
+            absorbing = isinstance(t, nodes.Or)
+            if l is absorbing or r is absorbing:
+                return absorbing
+            return (not absorbing) if l is (not absorbing) and r is (not absorbing) else None
+        k = expr_text(t)
+        if k in env:
+            return env[k]
+        return self.assignment.get(k)
+
+    # -- the text ----------------------------------------------------------------------------------------------------------------------
+    def feed(self, st: tuple, s: str, line: int) -> tuple:
+        fn, imp, tc, col = st
+        if not s:
+            return st
+        if fn == _AWAIT:
+            m = re.match(r"\w+", s)
+            fn = m.group(0) if m else "?"
+            self.fn_line.setdefault(fn, line)
+        for m in _MARK.finditer(s):
+            self.marks += 1
+            imp = False
+            if m.group(0).startswith("class"):
+                fn = None
+            elif m.group(1):
+                fn = m.group(1)
+                self.fn_line.setdefault(fn, line + s[:m.start()].count("\n"))
+            else:
+                fn = _AWAIT if m.end() == len(s) else "?"
+        if s.strip():
+            now = s.rstrip().endswith("if TYPE_CHECKING:")
+            self.marks += now
+            tc = now
+        tail = s.rsplit("\n", 1)[-1]
+        base = "bol" if "\n" in s else col
+        col = base if tail == "" else ("ind" if base in ("bol", "ind") else "mid") if tail.isspace() else "mid"
+        return fn, imp, tc, col
+
+    def text(self, S: frozenset, s: str, line: int) -> frozenset:
+        return frozenset(self.feed(st, s, line) for st in S)
+
+    def value(self, S: frozenset, e: nodes.Node) -> frozenset:
+        """a computed value is written: some text that is neither a mark nor blank"""
+        out = set()
+        for fn, imp, tc, col in S:
+            if fn == _AWAIT:
+                fn = expr_text(e)
+                self.fn_line.setdefault(fn, getattr(e, "lineno", 0))
+            out.add((fn, imp, False, "mid"))
+        return frozenset(out)
+
+    def expr(self, c: nodes.Node, S: frozenset, env: dict[str, bool], ti: Any, binds: dict[str, nodes.Node], depth: int) -> frozenset:
+        c2 = self.subst(c, ti, binds)
+        if isinstance(c2, nodes.Const) and isinstance(c2.value, str):
+            return self.text(S, c2.value, getattr(c, "lineno", 0))
+        base = c2
+        while isinstance(base, nodes.Filter) and base.node is not None:
+            base = base.node
+        if isinstance(base, nodes.Name) and base.name == self._lazy_target:
+            out = set()
+            for fn, imp, tc, col in S:  # an element of model.lazy_imports: an import statement
+                if fn is None:
+                    self.module_level.append((tc, col, getattr(c, "lineno", 0)))
+                out.add((fn, imp, tc, "mid"))
+            return frozenset(out)
+        if isinstance(base, nodes.Name) and base.name in self.blocks[ti.name] and depth < 6:
+            return self.walk(self.blocks[ti.name][base.name].body, S, env, ti, binds, depth + 1)  # a captured block is emitted here
+        wrote = False
+        for call in _calls_inner_first(c2):
+            f = call.node
+            if isinstance(f, nodes.Getattr) and isinstance(f.node, nodes.Name) and any(f.node.name in self.user_alias[t_.name] for t_ in [ti, *self.chain]):
+                for fn, imp, _tc, _col in S:
+                    if fn is not None:
+                        self.uses.setdefault(fn, []).append(imp)
+                continue
+            hit = self.macro_of(call, ti)
+            if hit is not None and depth < 6:
+                t2, m = hit
+                self.facts(t2)
+                params = [a.name for a in m.args]
+                b2: dict[str, nodes.Node] = dict(zip(params[len(params) - len(m.defaults):], m.defaults))
+                b2.update(zip(params, call.args))
+                b2.update({k.key: k.value for k in call.kwargs})
+                S = self.walk(m.body, S, env, t2, b2, depth + 1)
+                wrote = wrote or call is base
+        return S if wrote else self.value(S, c2)
+
+    def walk(self, body: list[nodes.Node], S: frozenset, env: dict[str, bool], ti: Any, binds: dict[str, nodes.Node], depth: int) -> frozenset:
+        self.facts(ti)
+        for n in body:
+            if not S:
+                break
+            if isinstance(n, nodes.Output):
+                for c in n.nodes:
+                    S = self.text(S, c.data, c.lineno) if isinstance(c, nodes.TemplateData) else self.expr(c, S, env, ti, binds, depth)
+            elif isinstance(n, nodes.If):
+                S = self.branch(n, S, env, ti, binds, depth)
+            elif isinstance(n, nodes.For):
+                S = self.loop(n, S, env, ti, binds, depth)
+            elif isinstance(n, nodes.Include):
+                names = [n.template] if isinstance(n.template, nodes.Const) else list(getattr(n.template, "items", []) or [None])
+                outs = frozenset()
+                for x in names:
+                    t2 = self.jx.templates.get(x.value) if isinstance(x, nodes.Const) and isinstance(x.value, str) else None
+                    if t2 is None or depth >= 6:
+                        self.opaque.append(f"{ti.name}:{n.lineno}: include of {expr_text(n.template)}")
+                        outs |= S
+                    else:
+                        self.chain.append(ti)
+                        try:
+                            outs |= self.walk(t2.tree.body, S, env, t2, binds, depth + 1)  # a partial sees the context it is included in
+                        finally:
+                            self.chain.pop()
+                        if not (isinstance(n.template, nodes.Const)):
+                            break  # of a list of candidates the first that exists is taken
+                S = outs
+            elif isinstance(n, nodes.With):
+                b2 = dict(binds)
+                for t, v in zip(n.targets, n.values):
+                    if isinstance(t, nodes.Name):
+                        b2[t.name] = self.subst(v, ti, binds)
+                S = self.walk(n.body, S, env, ti, b2, depth)
+            elif isinstance(n, nodes.CallBlock):
+                S = self.walk(n.body, S, env, ti, binds, depth)
+                S = self.expr(n.call, S, env, ti, binds, depth)
+            elif isinstance(n, (nodes.Scope, nodes.FilterBlock)):
+                S = self.walk(n.body, S, env, ti, binds, depth)
+            # Macro, Assign, AssignBlock, Import, FromImport, ExprStmt: nothing is written where they stand
+        return S
+
+    def branch(self, n: nodes.If, S: frozenset, env: dict[str, bool], ti: Any, binds: dict[str, nodes.Node], depth: int) -> frozenset:
+        arms = [(n.test, n.body)] + [(el.test, el.body) for el in n.elif_]
+        out: frozenset = frozenset()
+        before = self.marks
+        tests = []
+        for test, arm in arms:
+            t = self.subst(test, ti, binds)
+            tests.append(t)
+            v = self.truth(t, env)
+            if v is not False:
+                out |= self.walk(arm, S, env, ti, binds, depth)
+            if v is True:
+                break
+        else:
+            out |= self.walk(n.else_, S, env, ti, binds, depth)
+        if self.marks > before:
+            self.relevant |= {expr_text(a) for t in tests for a in self.atoms(t) if self.stable(a)}
+        return out
+
+    def loop(self, n: nodes.For, S: frozenset, env: dict[str, bool], ti: Any, binds: dict[str, nodes.Node], depth: int) -> frozenset:
+        it = self.subst(n.iter, ti, binds)
+        if isinstance(it, (nodes.Tuple, nodes.List)) and all(isinstance(x, nodes.Const) for x in it.items) and isinstance(n.target, nodes.Name) \
+                and n.test is None and len(it.items) <= 8:
+            for x in it.items:  # a loop over literal constants is its body once per constant
+                S = self.walk(n.body, S, env, ti, {**binds, n.target.name: x}, depth)
+            return S if it.items else self.walk(n.else_, S, env, ti, binds, depth)
+        lazy = _domain(it) == _LAZY and n.test is None and isinstance(n.target, nodes.Name)
+        if lazy:
+            self.marks += 1
+        first = {**env, "loop.first": True}
+        later = {**env, "loop.first": False}
+        for k in ("loop.index eq 1", "loop.index0 eq 0"):
+            first[k], later[k] = True, False
+        zero = self.walk(n.else_, S, env, ti, binds, depth) if n.else_ else S
+        saved = self._lazy_target
+        self._lazy_target = n.target.name if lazy else saved
+        try:
+            acc = self.walk(n.body, S, first, ti, binds, depth)
+            if n.test is not None:
+                acc |= S
+            for _ in range(4):
+                nxt = self.walk(n.body, acc, later, ti, binds, depth) | acc
+                if nxt == acc:
+                    break
+                acc = nxt
+        finally:
+            self._lazy_target = saved
+        out = zero | acc
+        if lazy and self._emits_element(n):
+            # passing the loop imports every lazily referenced class (none, when there is none)
+            out = frozenset((fn, True if fn is not None else imp, tc, col) for fn, imp, tc, col in out)
+        return out
+
+    @staticmethod
+    def _emits_element(n: nodes.For) -> bool:
+        """the loop body writes the loop's element on every path (an Output that is not under a condition)"""
+        for st in n.body:
+            if isinstance(st, nodes.Output):
+                for c in st.nodes:
+                    b = c
+                    while isinstance(b, nodes.Filter) and b.node is not None:
+                        b = b.node
+                    if isinstance(b, nodes.Name) and b.name == n.target.name:
+                        return True
+        return False
+
+
+def _calls_inner_first(e: nodes.Node) -> list[nodes.Call]:
+    out: list[nodes.Call] = []
+
+    def rec(x: nodes.Node) -> None:
+        for ch in x.iter_child_nodes():
+            rec(ch)
+        if isinstance(x, nodes.Call):
+            out.append(x)
+    rec(e)
+    return out
+
+
+def _lazy_imports_placed(rep: Report, ctx: Any, mt: Any) -> None:
+    """R01.2 (see above).  A class that is imported lazily (its module imports this one) is bound in the model module only under
+    `if TYPE_CHECKING:`; the text that macros of the property templates expand to names it at run time (isinstance(x, Model),
+    Model.from_dict(...)).  Necessary conditions, on every path through the template: in a function of the generated class, the
+    loop that writes the elements of model.lazy_imports is passed before the first expansion of a property macro; at module level
+    every such element is written inside the block of an `if TYPE_CHECKING:` line (imported unconditionally, two models that refer to
+    each other cannot be imported; outside the block's indentation the module does not compile)."""
+    run_ = _TplRun(ctx.jinja, mt)
+    start = frozenset({(None, False, False, "bol")})
+    run_.walk(mt.tree.body, start, {}, mt, {}, 0)  # all arms: which conditions matter
+    rep.require(not run_.opaque, f"templates that model.py.jinja includes: {run_.opaque[:2]}")
+    names_ = sorted(run_.relevant)
+    rep.require(len(names_) <= 10, "conditions on which a def / lazy-import loop of model.py.jinja depends: at most 10 atoms")
+    uses: dict[str, list[bool]] = {}
+    lines: dict[str, int] = {}
+    module_level: list[tuple[bool, str, int]] = []
+    for env in tplq.assignments(names_):
+        if any(_empties(a_, _LAZY) and not v for a_, v in env.items()):
+            continue  # nothing is imported lazily in this rendering
+        run_.reset(env)
+        run_.walk(mt.tree.body, start, {}, mt, {}, 0)
+        for fn, imps in run_.uses.items():
+            uses.setdefault(fn, []).extend(imps)
+        for fn, ln in run_.fn_line.items():
+            lines.setdefault(fn, ln)
+        module_level += run_.module_level
+    for name in sorted(uses):
+        rep.check(all(uses[name]), "R01.2", f"model.py.jinja::{name}::lazy-imports-first",
+                  f"{name} does not import the lazily referenced model classes before the first property macro it expands, on some path through "
+                  "the template, although that text can contain isinstance(x, Model) / Model.from_dict(...) (NameError at call time)",
+                  where=f"{PKG}/templates/model.py.jinja:{lines.get(name, 0)}", lhs=f"{sum(not x for x in uses[name])} of {len(uses[name])} expansions reached "
+                  "without the imports", rhs=f"model.lazy_imports emitted in {name} before the first property macro")
+    rep.floor("model_functions", len(uses), 2)
+    rep.require(module_level, "the place where model.py.jinja writes model.lazy_imports at module level")
+    bad = sorted({ln for tc, col, ln in module_level if not (tc and col == "ind")})
+    rep.check(not bad, "R01.2", "model.py.jinja::type-checking-block", "lazy imports are written at module level outside the block of an "
+              "`if TYPE_CHECKING:` line: two models that refer to each other cannot be imported", where=f"{PKG}/templates/model.py.jinja:{bad[0] if bad else 0}",
+              lhs=sorted({(tc, col) for tc, col, _ in module_level}), rhs="after `if TYPE_CHECKING:` and nothing but lazy imports, indented")
 
 
 # ---- R01.8 ----------------------------------------------------------------------------------------------------------------------------
@@ -1716,51 +2141,71 @@ class Cond:
         return bool(atom(expr_text(n)))
 
 
-def _declaration_passes(ti: Any) -> list[dict]:
+def _declaration_passes(ti: Any, jx: Any = None) -> list[dict]:
     """the passes in which the top level of the template declares attributes, in the order in which they run.  A pass is one run of a
     loop (over something other than literal constants) in which `<element>.to_string()` is emitted; its *sites* are the places that
     emit it, each with the conditions it stands under ((test, polarity), ... - variables bound to a constant or to a macro argument
     replaced by what they are bound to).  A loop over a literal tuple / list of constants is its body once per constant; a call of a
-    macro of the template is the macro's body with the arguments for the parameters."""
+    macro (of the template, or imported by name from a helper template) is the macro's body with the arguments for the parameters; an
+    `include`d partial is its text."""
     import itertools
 
     passes: dict[tuple, dict] = {}
     fresh = itertools.count()
+    facts = _TplRun(jx, ti) if jx is not None else None
+
+    def macro_of(call: nodes.Call, cur: Any) -> "tuple[Any, nodes.Macro] | None":
+        if facts is not None:
+            facts.facts(cur)
+            return facts.macro_of(call, cur)
+        f_ = call.node
+        return (cur, cur.macros[f_.name]) if isinstance(f_, nodes.Name) and f_.name in cur.macros else None
 
     def subst(n: nodes.Node, binds: dict[str, nodes.Node]) -> nodes.Node:
         return _tsubst(n, {k: [v] for k, v in binds.items()}) if binds else n
 
-    def output(c: nodes.Node, guards: tuple, loops: tuple, binds: dict[str, nodes.Node], path: tuple, depth: int) -> None:
+    def output(c: nodes.Node, guards: tuple, loops: tuple, binds: dict[str, nodes.Node], path: tuple, depth: int, cur: Any) -> None:
         c2 = subst(c, binds)
         for call in ([c2] if isinstance(c2, nodes.Call) else []) + list(c2.find_all(nodes.Call)):
             f = call.node
+            hit = macro_of(call, cur) if depth < 3 else None
             if isinstance(f, nodes.Getattr) and f.attr == "to_string" and isinstance(f.node, nodes.Name):
                 pid = next((pid for elem, pid in reversed(loops) if elem == f.node.name), None)
                 if pid is not None:
                     passes[pid]["sites"].append(guards)
-            elif isinstance(f, nodes.Name) and f.name in ti.macros and depth < 3:
-                m = ti.macros[f.name]
+            elif hit is not None:
+                cur2, m = hit
                 params = [a.name for a in m.args]
                 b2: dict[str, nodes.Node] = dict(zip(params[len(params) - len(m.defaults):], m.defaults))
                 b2.update(zip(params, call.args))
                 b2.update({k.key: k.value for k in call.kwargs})
-                walk(m.body, guards, loops, b2, path + (("call", next(fresh)),), depth + 1)
+                walk(m.body, guards, loops, b2, path + (("call", next(fresh)),), depth + 1, cur2)
 
-    def walk(body: list[nodes.Node], guards: tuple, loops: tuple, binds: dict[str, nodes.Node], path: tuple, depth: int) -> None:
+    def walk(body: list[nodes.Node], guards: tuple, loops: tuple, binds: dict[str, nodes.Node], path: tuple, depth: int, cur: Any = ti) -> None:
         for n in body:
             if isinstance(n, nodes.Output):
                 for c in n.nodes:
                     if not isinstance(c, nodes.TemplateData):
-                        output(c, guards, loops, binds, path, depth)
+                        output(c, guards, loops, binds, path, depth, cur)
+            elif isinstance(n, nodes.Include) and jx is not None and depth < 3:
+                for x in ([n.template] if isinstance(n.template, nodes.Const) else list(getattr(n.template, "items", []) or [])):
+                    t2 = jx.templates.get(x.value) if isinstance(x, nodes.Const) and isinstance(x.value, str) else None
+                    if t2 is not None:
+                        facts.chain.append(cur)
+                        try:
+                            walk(t2.tree.body, guards, loops, binds, path + (("include", next(fresh)),), depth + 1, t2)
+                        finally:
+                            facts.chain.pop()
+                        break
             elif isinstance(n, nodes.If):
                 t = subst(n.test, binds)
-                walk(n.body, guards + ((t, True),), loops, binds, path, depth)
+                walk(n.body, guards + ((t, True),), loops, binds, path, depth, cur)
                 neg = guards + ((t, False),)
                 for el in n.elif_:
                     t2 = subst(el.test, binds)
-                    walk(el.body, neg + ((t2, True),), loops, binds, path, depth)
+                    walk(el.body, neg + ((t2, True),), loops, binds, path, depth, cur)
                     neg += ((t2, False),)
-                walk(n.else_, neg, loops, binds, path, depth)
+                walk(n.else_, neg, loops, binds, path, depth, cur)
             elif isinstance(n, nodes.For):
                 it = subst(n.iter, binds)
                 consts = list(it.items) if isinstance(it, (nodes.Tuple, nodes.List)) and all(isinstance(x, nodes.Const) for x in it.items) else None
@@ -1768,18 +2213,18 @@ def _declaration_passes(ti: Any) -> list[dict]:
                     for k, x in enumerate(consts):
                         b2 = {**binds, n.target.name: x}
                         g2 = guards + (((subst(n.test, b2), True),) if n.test is not None else ())
-                        walk(n.body, g2, loops, b2, path + (("const", id(n), k),), depth)
+                        walk(n.body, g2, loops, b2, path + (("const", id(n), k),), depth, cur)
                     if not consts:
-                        walk(n.else_, guards, loops, binds, path, depth)
+                        walk(n.else_, guards, loops, binds, path, depth, cur)
                     continue
                 g2 = guards + (((subst(n.test, binds), True),) if n.test is not None else ())
                 pid = path + (("loop", id(n)),)
                 elem = n.target.name if isinstance(n.target, nodes.Name) else ""
                 passes[pid] = {"domain": _unparen(expr_text(it)), "line": n.lineno, "elem": elem, "sites": [], "nested": bool(loops)}
-                walk(n.body, g2, loops + ((elem, pid),), binds, pid, depth)
-                walk(n.else_, guards, loops, binds, path, depth)
+                walk(n.body, g2, loops + ((elem, pid),), binds, pid, depth, cur)
+                walk(n.else_, guards, loops, binds, path, depth, cur)
             elif isinstance(n, (nodes.With, nodes.Scope, nodes.CallBlock, nodes.FilterBlock, nodes.AssignBlock)):
-                walk(getattr(n, "body", []), guards, loops, binds, path, depth)
+                walk(getattr(n, "body", []), guards, loops, binds, path, depth, cur)
 
     walk(ti.tree.body, (), (), {}, (), 0)
     return [p_ for p_ in passes.values() if p_["sites"]]
